@@ -116,7 +116,7 @@ pub struct ExIndexSetIter<'a, K>(IndexSetIter<'a, K>);
 /// IndexSet view: insertion-ordered sequence without duplicates
 pub uninterp spec fn is_seq<K>(s: IndexSet<K>) -> Seq<K>;
 pub proof fn axiom_index_set_wf<K>(s: IndexSet<K>)
-    ensures is_seq(s).no_duplicates(),
+    ensures is_seq(s).no_duplicates(), is_seq(s).len() < usize::MAX,
 { admit(); }
 pub assume_specification<K>[ IndexSet::<K>::contains ](s: &IndexSet<K>, k: &K) -> (r: bool)
     ensures r == is_seq(*s).contains(*k);
